@@ -58,6 +58,46 @@ def structured_block_matrix(rng, q0, q1, how):
     mask = np.equal.outer(np.asarray(q0), np.asarray(q1))
     if how == 'binary':
         return np.where(mask, rng.integers(0, 2, size=(m, n)), 0).astype(float)
+    if how == 'nearstruct':
+        # every charge block: an exactly structured matrix (Hermitian, symmetric, skew, identity, diagonal, unitary, triangular, normal) on its leading
+        # square part plus a perturbation of relative size eps in {0, 1e-13 .. 1e-3} -- "almost" structured blocks
+        cplx = rng.random() < 0.5
+        A = np.zeros((m, n), dtype=complex if cplx else float)
+        for q in np.intersect1d(q0, q1):
+            i = np.where(np.asarray(q0) == q)[0]
+            j = np.where(np.asarray(q1) == q)[0]
+            r, c = len(i), len(j)
+            k = min(r, c)
+            X = rng.normal(size=(k, k)) + (1j * rng.normal(size=(k, k)) if cplx else 0)
+            st = str(rng.choice(['hermitian', 'symmetric', 'skew', 'identity', 'diagonal', 'unitary', 'triangular', 'normal', 'psd']))
+            if st == 'hermitian':
+                S = X + X.conj().T
+            elif st == 'symmetric':
+                S = X + X.T
+            elif st == 'skew':
+                S = X - X.conj().T
+            elif st == 'identity':
+                S = np.identity(k) * float(rng.choice([1.0, -2.0, 0.5]))
+            elif st == 'diagonal':
+                S = np.diag(np.diag(X))
+            elif st == 'unitary':
+                S = np.linalg.qr(X)[0]
+            elif st == 'triangular':
+                S = np.triu(X)
+            elif st == 'psd':
+                S = X @ X.conj().T
+            else:
+                U = np.linalg.qr(X)[0]
+                S = (U * (rng.normal(size=k) + (1j * rng.normal(size=k) if cplx else 0))) @ U.conj().T
+            eps = float(rng.choice([0, 0, 1e-13, 1e-10, 1e-8, 1e-6, 1e-5, 1e-3]))
+            P = rng.normal(size=(k, k)) + (1j * rng.normal(size=(k, k)) if cplx else 0)
+            S = S + eps * max(np.abs(S).max(), 1e-300) * P
+            B = rng.normal(size=(r, c)) + (1j * rng.normal(size=(r, c)) if cplx else 0)
+            if rng.random() < 0.7:
+                B[:] = 0            # rectangular remainder of the block: zero (default) or random
+            B[:k, :k] = S
+            A[np.ix_(i, j)] = B
+        return A
     A = np.where(mask, rng.normal(size=(m, n)) + (1j * rng.normal(size=(m, n)) if rng.random() < 0.5 else 0), 0)
     if how == 'zerocols':
         for j in range(n):
